@@ -797,7 +797,13 @@ func genNasLayout() error {
 		}
 		b.WriteString("] }\n\n")
 	}
-	b.WriteString("def layouts : List Layout := [")
+	b.WriteString("/-! field indices by name (hand models refer to fields through these, so a renamed or removed field breaks the build) -/\n")
+	for _, l := range layouts {
+		for i, f := range l.fields {
+			fmt.Fprintf(&b, "def idx_%s_%s : Nat := %d\n", leanIdent(l.name), leanIdent(f.name), i)
+		}
+	}
+	b.WriteString("\ndef layouts : List Layout := [")
 	for i, l := range layouts {
 		if i > 0 {
 			b.WriteString(",")
